@@ -983,11 +983,10 @@ func (ps *PathSim) execCall(fn *ssa.Function, st *pstate, ci ssa.CallInstruction
 				}
 			}
 			if a0 := ev.Args[0]; a0.K == sFresh && len(a0.Kids) == 1 {
-				if _, isMk := a0.V.(*ssa.MakeSlice); isMk {
-					s = a0.Kids[0] // len(make([]T, n, …)) is n: nothing is ever appended to the made value itself
-					if s.K == sConst && s.T == nil {
-						s = &Sym{K: sConst, C: s.C, T: val.Type()}
-					}
+				if _, isMk := a0.V.(*ssa.MakeSlice); isMk && a0.Kids[0].K == sConst && a0.Kids[0].C != nil {
+					// len(make([]T, k, …)) is k (nothing is ever appended to the made value itself); a symbolic length
+					// stays len(x), which is what the facts of the path are about
+					s = &Sym{K: sConst, C: a0.Kids[0].C, T: val.Type()}
 				}
 			}
 			if n, ok := appendedLen(st, ev.Args[0]); ok {
